@@ -115,7 +115,11 @@ RoleIdx(q, j) == Cardinality({k \in 1..(j - 1) : q[k].role = q[j].role})
 \* nm = the name reached, tgt = the object reached
 UseRecs(S, p, s, q) == {[p |-> p, s |-> s, r |-> q[j].role, i |-> RoleIdx(q, j),
                          nm |-> S.syms[q[j].sym].name, tgt |-> q[j].sym] : j \in DOMAIN q}
-EmptySide == [tw |-> FALSE, t |-> 0, D |-> {}, N |-> {}, u |-> {}, n |-> {}, s |-> {}]
+\* (U = the uses without the identity reached, no = the node identities: both
+\* derived, kept in the record so that they are computed once per side)
+Strip(u) == {[p |-> x.p, s |-> x.s, r |-> x.r, i |-> x.i, nm |-> x.nm] : x \in u}
+EmptySide == [tw |-> FALSE, t |-> 0, D |-> {}, N |-> {}, u |-> {}, U |-> {}, n |-> {},
+              no |-> {}, s |-> {}]
 SideObs(S, root) ==
   IF root = 0 THEN EmptySide
   ELSE LET W  == TCToSet(Walk(S, root, <<>>))
@@ -133,27 +137,27 @@ SideObs(S, root) ==
                               : j \in {k \in DOMAIN S.syms[y].deps :
                                          S.syms[y].deps[k].role \in {"shape", "init"}}}
                              : y \in sy}
-       IN [tw |-> TRUE, D |-> D, N |-> N, u |-> u, n |-> n, s |-> sy,
+           U  == Strip(u)
+       IN [tw |-> TRUE, D |-> D, N |-> N, u |-> u, U |-> U, n |-> n,
+           no |-> {x.o : x \in n}, s |-> sy,
            \* the model's "written text" is the render itself
-           t |-> [D |-> D, N |-> N,
-                  U |-> {[p |-> x.p, s |-> x.s, r |-> x.r, i |-> x.i, nm |-> x.nm] : x \in u}]]
+           t |-> [D |-> D, N |-> N, U |-> U]]
 ObsOf(M) == [O |-> SideObs(M.S, M.rO), C |-> SideObs(M.S, M.rC),
              eq |-> TRUE, ref |-> FALSE]
-Strip(u) == {[p |-> x.p, s |-> x.s, r |-> x.r, i |-> x.i, nm |-> x.nm] : x \in u}
 Site(x)  == [p |-> x.p, s |-> x.s, r |-> x.r, i |-> x.i]
-RenderEq(a, b) == a.D = b.D /\ a.N = b.N /\ Strip(a.u) = Strip(b.u)
+RenderEq(a, b) == a.D = b.D /\ a.N = b.N /\ a.U = b.U
 RenderDiff(a, b) == [Dgone |-> a.D \ b.D, Dnew |-> b.D \ a.D,
                      Ngone |-> a.N \ b.N, Nnew |-> b.N \ a.N,
-                     Ugone |-> Strip(a.u) \ Strip(b.u), Unew |-> Strip(b.u) \ Strip(a.u)]
+                     Ugone |-> a.U \ b.U, Unew |-> b.U \ a.U]
 
 \* ------------------------------------------------------------ the clauses
 \* Each returns a sequence of [v |-> clause, w |-> witness] (empty = holds).
 \* NoSharedNode: no node object is reachable from both trees (statement and
 \* expression nodes, and the nodes owned by declarations of their tables).
 VNoShared(ob) ==
-  LET sh == {x \in ob.O.n : \E y \in ob.C.n : y.o = x.o}
+  LET sh == ob.O.no \cap ob.C.no
   IN IF sh = {} THEN <<>>
-     ELSE <<[v |-> "NoSharedNode", w |-> [cats |-> {x.cat : x \in sh},
+     ELSE <<[v |-> "NoSharedNode", w |-> [cats |-> {x.cat : x \in {y \in ob.O.n : y.o \in sh}},
                                            count |-> Cardinality(sh)]]>>
 \* OwnSymbols: no use of one tree reaches a symbol object of a table of the
 \* other tree, the tables share no symbol object; right after Copy every use
